@@ -1,15 +1,16 @@
 CONSTANTS
   MaxObj = 3
-  MaxSteps = 7
+  MaxSteps = 6
   CreateClasses = {"P","C"}
   QueryClasses = {"P","C"}
   AllowClear = FALSE
   AllowRelate = TRUE
+  AllowQueryX = TRUE
   AllowSweep = FALSE
   Hist = TRUE
   PopIdOfNone = FALSE
   StaleRelationIndex = FALSE
   DupSubclassList = FALSE
-  StrongExprTable = FALSE
+  StrongExprTable = TRUE
 SPECIFICATION Spec
 CONSTRAINT Emit
